@@ -171,6 +171,7 @@ NAME_POOLS = [
     ['q1', 'q10', 'q11', 'q100', 'q2', 'q20', 'q101', 'q12'],
     ['1', '10', '11', '2', '21', '100', '12', '0'],
     ['p', 'p1', 'pp', 'r', 'rp', 'p1r', 'r1', 'pr'],
+    ['0', '00', '1', '01', 'q1', 'q01', 'q001', 'q10'],
 ]
 
 
